@@ -157,6 +157,8 @@ class Work:
             except OSError:
                 f.seek(0)
             last = f.read()
+        if b'"e":"Fault"' in last:
+            clean_trace(tp)
         if b'"inapi":false' in last:
             raise Infra("the driver itself crashed outside an API call (script %s): %s" % (sp, last[-300:]))
         if b'"e":"End"' not in last:
@@ -210,7 +212,7 @@ class Work:
         self.drivers[variant] = out
         return out
 
-    def record_mt(self, variant, name, setup_lines, thread_scripts, serial=None):
+    def record_mt(self, variant, name, setup_lines, thread_scripts, serial=None, main_thread=False):
         """Run the threads; returns (list of per-thread traces composed with the setup events, stderr).
         serial: per-thread lists of result lines from serial runs of the same scripts; a thread whose
         results differ from them gets a serial-mismatch observer event."""
@@ -228,7 +230,7 @@ class Work:
         env = dict(os.environ)
         env["TSAN_OPTIONS"] = "halt_on_error=0:report_signal_unsafe=0:exitcode=0:second_deadlock_stack=1"
         try:
-            r = subprocess.run([drv, setup, base + ".trace"] + paths, stdout=subprocess.PIPE, stderr=subprocess.PIPE, env=env, timeout=900)
+            r = subprocess.run([drv] + (["--serial"] if main_thread else []) + [setup, base + ".trace"] + paths, stdout=subprocess.PIPE, stderr=subprocess.PIPE, env=env, timeout=900)
         except subprocess.TimeoutExpired:
             raise Infra("multi-threaded driver timed out")
         err = r.stderr.decode("utf-8", "replace")
@@ -252,7 +254,9 @@ class Work:
                         continue
                     if l.strip():
                         body.append(l)
-                # another thread's fault ends the process: the last line may be cut short
+                # another thread's fault ends the process: the last line may be cut short; a fault inside one of the
+                # driver's read-back calls leaves the Ret line it was writing half written
+                body = drop_half_lines(body)
                 while body:
                     try:
                         json.loads(body[-1])
@@ -276,6 +280,26 @@ class Work:
                 f.write('{"e":"End","complete":%s}\n' % ("true" if complete else "false"))
             traces.append(outp)
         return traces, err
+
+
+def drop_half_lines(lines):
+    """A fault handler terminates the line being written and appends its Fault event: drop that half line."""
+    out = []
+    for i, l in enumerate(lines):
+        if i + 1 < len(lines) and lines[i + 1].startswith('{"e":"Fault"') and not l.rstrip().endswith("}"):
+            continue
+        if not l.strip():
+            continue
+        out.append(l)
+    return out
+
+
+def clean_trace(tp):
+    lines = open(tp).read().splitlines()
+    new = drop_half_lines(lines)
+    if new != lines:
+        with open(tp, "w") as f:
+            f.write("\n".join(new) + "\n")
 
 
 def result_lines(lines):
